@@ -962,4 +962,140 @@ theorem pick_flatnonzero {β : Type} (mask : List Bool) (row : List β) (h : row
   simpa [flatnonzero] using this
 
 
+
+/-! ### the Cardano chain rule of `calc_first_root` equals the implicit-function derivatives -/
+
+/-- algebraic heart of `calc_first_root`: with `u³ = −q/2 + √det`, `v³ = −q/2 − √det`, `p = −3uv`
+    the chain rule through Cardano's formula gives the implicit-function derivatives -/
+theorem cardano_core (a u v : ℝ) (hu : u ≠ 0) (hv : v ≠ 0) (huv : u ^ 3 - v ^ 3 ≠ 0) :
+    let p := -3 * u * v
+    let q := -(u ^ 3 + v ^ 3)
+    let s := (u ^ 3 - v ^ 3) / 2
+    let b := p + a * a / 3
+    let y := u + v - a / 3
+    let dP := 3 * y * y + 2 * a * y + b
+    let dy_ddet := 1 / (6 * s * (u * u)) - 1 / (6 * s * (v * v))
+    let dy_dq := -1 / (6 * (u * u)) - 1 / (6 * (v * v))
+    let dp_da := -2 * a / 3
+    let dq_da := 2 * (a * a) / 9 - b / 3
+    let dq_db := -a / 3
+    dy_ddet * (p * p / 9) * dp_da + dy_ddet * (1 / 2 * q) * dq_da + dy_dq * dq_da + -(1 / 3) = -(y * y) / dP ∧
+    dy_ddet * (p * p / 9) + dy_ddet * (1 / 2 * q) * dq_db + dy_dq * dq_db = -y / dP ∧
+    dy_ddet * (1 / 2 * q) + dy_dq = -1 / dP := by
+  intro p q s b y dP dy_ddet dy_dq dp_da dq_da dq_db
+  have hpos : 0 < u * u + u * v + v * v := by nlinarith [sq_nonneg (u + v / 2), sq_pos_of_ne_zero hv]
+  have hdP : dP = 3 * (u * u + u * v + v * v) := by simp only [dP, y, b, p]; ring
+  have hdP0 : dP ≠ 0 := by rw [hdP]; positivity
+  have hs : s ≠ 0 := by simp only [s]; exact div_ne_zero huv (by norm_num)
+  have hfac : u ^ 3 - v ^ 3 = (u - v) * (u * u + u * v + v * v) := by ring
+  have huv' : u - v ≠ 0 := by
+    intro h; apply huv; rw [hfac, h]; ring
+  obtain ⟨W, hWdef⟩ : ∃ W, W = u * u + u * v + v * v := ⟨_, rfl⟩
+  rw [← hWdef] at hfac hdP hpos
+  have hW : W ≠ 0 := hpos.ne'
+  have h3W : 3 * W ≠ 0 := by positivity
+  refine ⟨?_, ?_, ?_⟩
+  · rw [hdP, eq_div_iff h3W]; simp only [dy_ddet, dy_dq, dp_da, dq_da, dq_db, s, q, p, b, y]
+    rw [hfac]; field_simp; subst hWdef; ring
+  · rw [hdP, eq_div_iff h3W]; simp only [dy_ddet, dy_dq, dp_da, dq_da, dq_db, s, q, p, b, y]
+    rw [hfac]; field_simp; subst hWdef; ring
+  · rw [hdP, eq_div_iff h3W]; simp only [dy_ddet, dy_dq, dp_da, dq_da, dq_db, s, q, p, b, y]
+    rw [hfac]; field_simp; subst hWdef; ring
+
+theorem cbrt_abs_sq (x : ℝ) : Real.cbrt |x| * Real.cbrt |x| = Real.cbrt x * Real.cbrt x := by
+  unfold Real.cbrt
+  by_cases h : 0 ≤ x
+  · rw [abs_of_nonneg h]
+  · have h' : x < 0 := not_le.mp h
+    rw [abs_of_neg h', if_pos (by linarith : (0:ℝ) ≤ -x), if_neg h]; ring
+
+theorem cube_inj (x y : ℝ) (h : x ^ 3 = y ^ 3) : x = y :=
+  (Odd.strictMono_pow (by decide : Odd 3)).injective h
+
+theorem cardano_chain_eq_implicit_aux (a b c : ℝ) (k : Nat) (hdet : 0 < cubDet a b c)
+    (hreg : regularised a b c = false) :
+    calcCubicRootDerivs a b c k = implicitDerivs a b (calcCubicRoot a b c k) := by
+  have hlt : RealLike.lt (0.0:ℝ) (cubDet a b c) = true := by
+    show decide ((0.0:ℝ) < cubDet a b c) = true
+    rw [decide_eq_true_eq]; norm_num; exact hdet
+  have hle : RealLike.le (0.0:ℝ) (cubDet a b c) = true := by
+    show decide ((0.0:ℝ) ≤ cubDet a b c) = true
+    rw [decide_eq_true_eq]; norm_num; exact hdet.le
+  simp only [regularised, hlt, if_true] at hreg
+  simp only [Bool.or_eq_false_iff] at hreg
+  obtain ⟨⟨h1, h2⟩, h3⟩ := hreg
+  -- facts about s0 = √det, u, v
+  have hdetdef : cubDet a b c = cubQ a b c * cubQ a b c / 4 + cubP a b * cubP a b * cubP a b / 27 := by
+    simp only [cubDet]; norm_num
+  have hPdef : cubP a b = b - a * a / 3 := by simp only [cubP]; norm_num
+  have hs0 : Real.sqrt (cubDet a b c) * Real.sqrt (cubDet a b c) = cubDet a b c := Real.mul_self_sqrt hdet.le
+  have hs0pos : 0 < Real.sqrt (cubDet a b c) := Real.sqrt_pos.mpr hdet
+  have hu3 := Real.cbrt_cube (Real.sqrt (cubDet a b c) - 1 / 2 * cubQ a b c)
+  have hv3 := Real.cbrt_cube (-Real.sqrt (cubDet a b c) - 1 / 2 * cubQ a b c)
+  have hhalf : (0.5 : ℝ) = 1 / 2 := by norm_num
+  -- the clamps are inactive
+  have e1 : RealLike.sq (RealLike.cbrt (RealLike.abs (RealLike.sqrt (cubDet a b c) - 0.5 * cubQ a b c)))
+      = Real.cbrt (Real.sqrt (cubDet a b c) - 1 / 2 * cubQ a b c) * Real.cbrt (Real.sqrt (cubDet a b c) - 1 / 2 * cubQ a b c) := by
+    rw [hhalf]; exact cbrt_abs_sq _
+  have e2 : RealLike.sq (RealLike.cbrt (RealLike.abs (-RealLike.sqrt (cubDet a b c) - 0.5 * cubQ a b c)))
+      = Real.cbrt (-Real.sqrt (cubDet a b c) - 1 / 2 * cubQ a b c) * Real.cbrt (-Real.sqrt (cubDet a b c) - 1 / 2 * cubQ a b c) := by
+    rw [hhalf]; exact cbrt_abs_sq _
+  have c1 : clampLo (RealLike.sq (RealLike.cbrt (RealLike.abs (RealLike.sqrt (cubDet a b c) - 0.5 * cubQ a b c))))
+      = Real.cbrt (Real.sqrt (cubDet a b c) - 1 / 2 * cubQ a b c) * Real.cbrt (Real.sqrt (cubDet a b c) - 1 / 2 * cubQ a b c) := by
+    simp only [clampLo, h1, Bool.false_eq_true, if_false]; exact e1
+  have c2 : clampLo (RealLike.sq (RealLike.cbrt (RealLike.abs (-RealLike.sqrt (cubDet a b c) - 0.5 * cubQ a b c))))
+      = Real.cbrt (-Real.sqrt (cubDet a b c) - 1 / 2 * cubQ a b c) * Real.cbrt (-Real.sqrt (cubDet a b c) - 1 / 2 * cubQ a b c) := by
+    simp only [clampLo, h2, Bool.false_eq_true, if_false]; exact e2
+  have c3 : clampLo (RealLike.sqrt (cubDet a b c)) = Real.sqrt (cubDet a b c) := by
+    simp only [clampLo, h3, Bool.false_eq_true, if_false]; rfl
+  have small : RealLike.lt (RealLike.abs ((0:ℝ) * 0)) (10e-6:ℝ) = true := by
+    show decide (|(0:ℝ) * 0| < 10e-6) = true
+    rw [decide_eq_true_eq]; norm_num
+  have t1pos : ¬ (Real.cbrt (Real.sqrt (cubDet a b c) - 1 / 2 * cubQ a b c) = 0) := by
+    intro h0
+    rw [e1, h0, small] at h1; exact Bool.noConfusion h1
+  have t2pos : ¬ (Real.cbrt (-Real.sqrt (cubDet a b c) - 1 / 2 * cubQ a b c) = 0) := by
+    intro h0
+    rw [e2, h0, small] at h2; exact Bool.noConfusion h2
+  simp only [calcCubicRootDerivs, calcCubicRoot, hlt, hle, if_true, calcFirstRoot]
+  rw [c1, c2, c3]
+  have eu : RealLike.cbrt (-cubQ a b c * 0.5 + RealLike.sqrt (cubDet a b c)) = Real.cbrt (Real.sqrt (cubDet a b c) - 1 / 2 * cubQ a b c) := by
+    show Real.cbrt _ = _; congr 1; rw [hhalf]; show _ + Real.sqrt _ = _; ring
+  have ev : RealLike.cbrt (-cubQ a b c * 0.5 - RealLike.sqrt (cubDet a b c)) = Real.cbrt (-Real.sqrt (cubDet a b c) - 1 / 2 * cubQ a b c) := by
+    show Real.cbrt _ = _; congr 1; rw [hhalf]; show _ - Real.sqrt _ = _; ring
+  rw [eu, ev]
+  show _ = implicitDerivs a b _
+  generalize Real.cbrt (Real.sqrt (cubDet a b c) - 1 / 2 * cubQ a b c) = u at *
+  generalize Real.cbrt (-Real.sqrt (cubDet a b c) - 1 / 2 * cubQ a b c) = v at *
+  clear e1 e2 c1 c2 c3 eu ev h1 h2 h3 small hlt hle
+  generalize Real.sqrt (cubDet a b c) = s0 at *
+  generalize cubQ a b c = Q at *
+  generalize cubP a b = P at *
+  generalize cubDet a b c = D at *
+  have hq : Q = -(u ^ 3 + v ^ 3) := by linarith
+  have hs : s0 = (u ^ 3 - v ^ 3) / 2 := by linarith
+  have hp : P = -3 * u * v := by
+    apply cube_inj
+    have : P * P * P / 27 = s0 * s0 - Q * Q / 4 := by rw [hs0, hdetdef]; ring
+    rw [hq, hs] at this
+    linear_combination 27 * this
+  have hb : b = P + a * a / 3 := by linarith
+  have huv : u ^ 3 - v ^ 3 ≠ 0 := by
+    intro h; rw [h] at hs; rw [hs] at hs0pos; norm_num at hs0pos
+  obtain ⟨r1, r2, r3⟩ := cardano_core a u v t1pos t2pos huv
+  simp only [implicitDerivs, cubicPoly'_real]
+  subst hq hs hb
+  subst hp
+  refine Prod.ext ?_ (Prod.ext ?_ ?_)
+  · show _ = -((u + v - a / 3.0) * (u + v - a / 3.0)) / _
+    have h30 : (3.0:ℝ) = 3 := by norm_num
+    rw [h30, ← r1]; norm_num
+  · show _ = -(u + v - a / 3.0) / _
+    have h30 : (3.0:ℝ) = 3 := by norm_num
+    rw [h30, ← r2]; norm_num
+  · show _ = (-1.0:ℝ) / _
+    have h30 : (3.0:ℝ) = 3 := by norm_num
+    have h10 : (-1.0:ℝ) = -1 := by norm_num
+    rw [h30, h10, ← r3]; norm_num
+
 end Verif.C13
